@@ -143,12 +143,12 @@ impl ParsedParameters {
         // if 'ellps' was explicitly given, it will override 'ellps_0'
         if index == 0 {
             if let Some(e) = self.text.get("ellps") {
-                return Ellipsoid::named(e).unwrap();
+                return Ellipsoid::named(e).unwrap_or_default();
             }
         }
         let key = format!("ellps_{index}");
         if let Some(e) = self.text.get(&key[..]) {
-            return Ellipsoid::named(e).unwrap();
+            return Ellipsoid::named(e).unwrap_or_default();
         }
         // If none of them existed, i.e. no defaults were given, we return the general default
         Ellipsoid::default()
@@ -392,6 +392,14 @@ impl ParsedParameters {
         for k in UNIT_VALUED_IMPLICIT_GAMUT_ELEMENTS {
             if !real.contains_key(k) {
                 real.insert(k, 1.);
+            }
+        }
+
+        // Ellipsoid names are resolved when the operator is applied: Make sure that
+        // cannot fail then, by refusing unknown names now
+        for (key, value) in &text {
+            if *key == "ellps" || key.starts_with("ellps_") {
+                Ellipsoid::named(value)?;
             }
         }
 
